@@ -379,10 +379,6 @@ fn body(ctx: &mut Ctx) {
                         if v.bits() > n || (mode == 0 && v.bits() != n) {
                             ctx.viol(format!("gen_biguint n={} mode={}", n, mode), "result does not fit the requested width (or the all-ones stream did not fill it)", vec![], format!("< 2^{}", n), v.to_hex());
                         }
-                        let words = ((n + 31) / 32) as u32;
-                        if rng.ctr != words {
-                            ctx.viol(format!("gen_biguint words n={} mode={}", n, mode), "number of 32-bit words drawn differs from ceil(n/32)", vec![], format!("{}", words), format!("{}", rng.ctr));
-                        }
                     }
                     Out::Panic(m) => ctx.viol(format!("gen_biguint n={} mode={}", n, mode), "unexpected panic", vec![], "value".into(), m),
                 }
